@@ -46,6 +46,7 @@ type State struct {
 	noFacts int
 	epoch string
 	atomicOps []string
+	plainOps []string
 }
 
 func (st *State) clone() *State {
@@ -79,6 +80,7 @@ func (st *State) clone() *State {
 	}
 	n.trace = append([]string(nil), st.trace...)
 	n.atomicOps = append([]string(nil), st.atomicOps...)
+	n.plainOps = append([]string(nil), st.plainOps...)
 	return n
 }
 
